@@ -546,7 +546,7 @@ theorem cr_updateStates_ok (P : Project) (g : G) (t : Nat) (vs : List Nat) (w : 
 theorem setupImpl_ne_persisted (P : Project) (g : G) (cfg : Cfg) (s : Sess) (t : TaskSpec) (name : String)
     (hp : t.persist = false) : setupImpl P g cfg s t name ≠ .persisted := by
   unfold setupImpl
-  simp only [hp, Bool.false_eq_true, if_false]
+  simp only [hp, Bool.false_and, Bool.false_eq_true, if_false]
   repeat' split
   all_goals simp
 
